@@ -142,6 +142,19 @@ package errbase
 
 //@ type OpaqueErrno invariant self.details != nil
 
+// C03: an OpaqueErrno carries the text a peer's encodeErrno put in the message field, i.e. the
+// text of a syscall.Errno (a fixed errno name, assumption safe_errno); decodeErrno states this as
+// a scoped precondition (wire assumption) and the type keeps it as invariant.
+//@ type OpaqueErrno invariant[C03,C12] safeS(self.msg)
+
+//@ func decodeErrno
+//@   props C05 C03 C12
+//@   requires[C03,C12] safeS(msg)
+
+//@ method (*OpaqueErrno).Error
+//@   props C03 C05
+//@   ensures result == self.msg
+
 //@ type errorFormatter invariant self.err != nil
 
 // ---- type names, migrations (C17, C02) ----
@@ -189,6 +202,8 @@ package errbase
 //@   ensures forall x TypeKey :: backwardRegistry.has(x) == regStep(old(backwardRegistry), previousPkgPath + "/" + previousTypeName, fullNameT(typeof(newType))).has(x)
 //@   ensures forall x TypeKey :: backwardRegistry.has(x) ==> backwardRegistry[x] == regStep(old(backwardRegistry), previousPkgPath + "/" + previousTypeName, fullNameT(typeof(newType)))[x]
 //@   maintains migrations_closed
+//@   requires[C03] safeS(previousPkgPath) && safeS(previousTypeName)
+//@   maintains[C03] migrations_safe
 //@   loop 1: invariant ref(backwardRegistry) == old(ref(backwardRegistry))
 //@           invariant forall x TypeKey :: backwardRegistry.has(x) == (old(backwardRegistry).has(x) || x == newKey)
 //@           invariant backwardRegistry[newKey] == prevKey
@@ -262,12 +277,14 @@ package errbase
 //@   ensures (cause1(err) != nil) == (wrapperOf(result) != nil)
 //@   ensures (cause1(err) == nil) == (leafOf(result) != nil)
 //@   ensures complete(result)
+//@   ensures[C03] safeEnc(result)
 
 //@ func encodeWrapper
 //@   props C01 C02 C04 C11
 //@   purecalls
 //@   requires err != nil && cause != nil && cause == cause1(err)
 //@   ensures wrapperOf(result) != nil && leafOf(result) == nil && completeWrapper(wrapperOf(result))
+//@   ensures[C03] safeEnc(result)
 //@   ensures wrapperOf(result).Cause == encOf(cause)
 //@   ensures typeis(err, *opaqueWrapper) ==> wrapperOf(result).Message == err.(*opaqueWrapper).prefix && wrapperOf(result).Details == err.(*opaqueWrapper).details && wrapperOf(result).MessageType == err.(*opaqueWrapper).messageType
 //@   ensures !typeis(err, *opaqueWrapper) ==> wrapperOf(result).Details.OriginalTypeName == fullNameT(typeof(err)) && wrapperOf(result).Details.ErrorTypeMark.FamilyName == keyOf(err) && wrapperOf(result).Details.ErrorTypeMark.Extension == extOf(err)
@@ -280,6 +297,7 @@ package errbase
 //@   requires err != nil && cause1(err) == nil
 //@   requires forall i int :: 0 <= i && i < len(causes) ==> causes[i] != nil
 //@   ensures leafOf(result) != nil && wrapperOf(result) == nil && completeLeaf(leafOf(result))
+//@   ensures[C03] safeEnc(result)
 //@   ensures len(leafOf(result).MultierrorCauses) == len(causes)
 //@   ensures forall i int :: 0 <= i && i < len(causes) ==> leafOf(result).MultierrorCauses[i] != nil && deref(leafOf(result).MultierrorCauses[i]) == encOf(causes[i])
 //@   ensures typeis(err, *opaqueLeaf) ==> leafOf(result).Message == err.(*opaqueLeaf).msg && leafOf(result).Details == err.(*opaqueLeaf).details
@@ -288,6 +306,7 @@ package errbase
 //@   ensures (!typeis(err, *opaqueLeaf) && !typeis(err, *opaqueLeafCauses) && leafEncoders.has(keyOf(err))) ==> leafOf(result).Message == callres0(leafEncoders[keyOf(err)], ctx, err) && leafOf(result).Details.ReportablePayload == callres1(leafEncoders[keyOf(err)], ctx, err) && leafOf(result).Details.FullDetails == (callres2(leafEncoders[keyOf(err)], ctx, err) == nil ? nil : anyOf(callres2(leafEncoders[keyOf(err)], ctx, err)))
 //@   ensures (!typeis(err, *opaqueLeaf) && !typeis(err, *opaqueLeafCauses) && !leafEncoders.has(keyOf(err))) ==> leafOf(result).Message == msg(err) && leafOf(result).Details.ReportablePayload == safeDetailsOf(err)
 //@   loop 1: invariant forall j int :: 0 <= j && j < $n ==> cs[j] != nil && deref(cs[j]) == encOf(causes[j]) && complete(deref(cs[j]))
+//@           invariant[C03] forall j int :: 0 <= j && j < $n ==> safeEnc(deref(cs[j]))
 
 //@ method (*opaqueLeafCauses).Error
 //@   props C01 C04 C13
@@ -372,6 +391,17 @@ package errbase
 //@ spec func safeEnc(e errorspb.EncodedError) bool
 
 //@ unfold safeEnc(e) = safeEncWrapper(wrapperOf(e)) && safeEncLeaf(leafOf(e))
+
+// ASSUMED (registry contents): a registered encoder returns a PII-free reportable payload. Proved
+// for every encoder the library registers (sweep obligations <encoder>#encoder.safe); for encoders
+// registered by the application it is the documented contract of Register*Encoder.
+//@ axiom registered_encoders_safe: forall k TypeKey, ctx context.Context, e error :: {callres1(encoders[k], ctx, e)} encoders.has(k) ==> safeSeq(callres1(encoders[k], ctx, e))
+//@ axiom registered_leaf_encoders_safe: forall k TypeKey, ctx context.Context, e error :: {callres1(leafEncoders[k], ctx, e)} leafEncoders.has(k) ==> safeSeq(callres1(leafEncoders[k], ctx, e))
+// ASSUMED: the type URL of a marshalled payload is a protobuf type name
+//@ axiom safe_typeurl: forall p proto.Message :: {anyOf(p)} anyOf(p) != nil ==> safeS(anyOf(p).TypeUrl)
+// migrated type names: the values of the migration registry are type names given to
+// RegisterTypeMigration (declared-safe arguments: a package path and a type name)
+//@ global invariant migrations_safe: forall k TypeKey :: backwardRegistry.has(k) ==> safeS(backwardRegistry[k])
 
 //@ type opaqueLeaf invariant[C03,C12] safeDetailsW(self.details)
 
